@@ -712,7 +712,15 @@ func (b *BaseStore) Load(ctx context.Context, amount int) error {
 					break
 				}
 
-				fetchLength = amount + refused
+				// as many more as were left out, and at least twice as many as before:
+				// growing by what was left out alone reads a run of left out entries
+				// (refused, badly signed: they cannot be excluded from the fetch, which
+				// has to walk through them) in rounds of 3, 5, 7 ... entries
+				if next := amount + refused; next > 2*fetchLength {
+					fetchLength = next
+				} else {
+					fetchLength = 2 * fetchLength
+				}
 			}
 
 			if len(own) != l.GetEntries().Len() {
